@@ -7,9 +7,11 @@ open Std
 def SecInv (s : Secret) : Prop :=
   s.active ∈ s.versions ∧ ∀ k, k ∈ s.versions → 1 ≤ k ∧ k ≤ s.latest
 
-def Inv (kv : KV) : Prop := ∀ (n : String) (s : Secret), kv.secrets[n]? = some s → SecInv s
+def InvS (m : SMap) : Prop := ∀ (n : String) (s : Secret), m[n]? = some s → SecInv s
+def Inv (kv : KV) : Prop := InvS kv.secrets
 
-theorem KV.ext' {a b : KV} (h1 : a.secrets = b.secrets) (h2 : a.gen = b.gen) : a = b := by
+theorem KV.ext' {a b : KV} (h1 : a.secrets = b.secrets) (h2 : a.gen = b.gen)
+    (h3 : a.disk = b.disk := by rfl) : a = b := by
   cases a; cases b; simp_all
 
 theorem Secret.ext' {a b : Secret} (h1 : a.versions = b.versions) (h2 : a.active = b.active)
@@ -130,15 +132,15 @@ theorem deleteSecret_savefail (kv : KV) (n : String) : (deleteSecret kv n false)
 
 /-! ### the invariant is preserved by every operation, whatever the save oracle says -/
 
-theorem inv_insert (kv : KV) (n : String) (s : Secret) (g : Nat) (h : Inv kv) (hs : SecInv s) :
-    Inv { secrets := kv.secrets.insert n s, gen := g } := by
+theorem inv_insert (kv : KV) (n : String) (s : Secret) (g : Nat) (d : SMap) (h : Inv kv) (hs : SecInv s) :
+    Inv { secrets := kv.secrets.insert n s, gen := g, disk := d } := by
   intro m t hm
   by_cases hk : n = m
   · subst hk; simp at hm; subst hm; exact hs
   · simp [ExtTreeMap.getElem?_insert, hk] at hm; exact h m t hm
 
-theorem inv_erase (kv : KV) (n : String) (g : Nat) (h : Inv kv) :
-    Inv { secrets := kv.secrets.erase n, gen := g } := by
+theorem inv_erase (kv : KV) (n : String) (g : Nat) (d : SMap) (h : Inv kv) :
+    Inv { secrets := kv.secrets.erase n, gen := g, disk := d } := by
   intro m t hm
   by_cases hk : n = m
   · subst hk; simp at hm
@@ -160,11 +162,11 @@ theorem put_inv (g : Bool) (kv : KV) (n : String) (v : Bytes) (ok : Bool) (h : I
   · rw [put_savefail g kv n v h]; exact h
   · unfold put
     split
-    · simp [save]; exact inv_insert kv n _ _ h (secInv_new v)
+    · simp [save]; exact inv_insert kv n _ _ _ h (secInv_new v)
     · next s hs =>
       split
       · exact h
-      · simp [save]; exact inv_insert kv n _ _ h (secInv_putNew s v (h n s hs))
+      · simp [save]; exact inv_insert kv n _ _ _ h (secInv_putNew s v (h n s hs))
 
 theorem setActive_inv (kv : KV) (n : String) (v : Nat) (ok : Bool) (h : Inv kv) :
     Inv (setActive kv n v ok).1 := by
@@ -178,7 +180,7 @@ theorem setActive_inv (kv : KV) (n : String) (v : Nat) (ok : Bool) (h : Inv kv) 
     next hv =>
     split; · exact h
     simp [save]
-    apply inv_insert kv n _ _ h
+    apply inv_insert kv n _ _ _ h
     have := h n s hs
     exact ⟨by simpa using hv, this.2⟩
 
@@ -194,7 +196,7 @@ theorem deleteVersion_inv (kv : KV) (n : String) (v : Nat) (ok : Bool) (h : Inv 
     next hva =>
     split; · exact h
     simp [save]
-    apply inv_insert kv n _ _ h
+    apply inv_insert kv n _ _ _ h
     obtain ⟨ha, hk⟩ := h n s hs
     constructor
     · simp; exact ⟨hva, ha⟩
@@ -206,7 +208,7 @@ theorem deleteSecret_inv (kv : KV) (n : String) (ok : Bool) (h : Inv kv) :
   · rw [deleteSecret_savefail]; exact h
   · unfold deleteSecret
     split; · exact h
-    simp [save]; exact inv_erase kv n _ h
+    simp [save]; exact inv_erase kv n _ _ h
 
 /-! ### put: retrievable, fresh number, dedupe, first put (C02) -/
 
@@ -231,14 +233,16 @@ theorem put_retrievable (kv : KV) (n : String) (v : Bytes) (ok : Bool) (kv' : KV
 
 /-- first put of a name: version 1, active, alone -/
 theorem put_first (g : Bool) (kv : KV) (n : String) (v : Bytes) (h : kv.secrets[n]? = none) :
-    put g kv n v true = ({ secrets := kv.secrets.insert n (newSecret v), gen := kv.gen + 1 }, .ok 1) := by
+    put g kv n v true = ({ secrets := kv.secrets.insert n (newSecret v), gen := kv.gen + 1,
+                           disk := kv.secrets.insert n (newSecret v) }, .ok 1) := by
   simp [put, h, save]
 
 /-- later put of different bytes: fresh number latest+1, never used before, active untouched -/
 theorem put_fresh (kv : KV) (n : String) (v : Bytes) (s : Secret) (hs : kv.secrets[n]? = some s)
     (hinv : SecInv s) (hd : dedupe true s v = false) :
     put true kv n v true =
-      ({ secrets := kv.secrets.insert n (putNewMutate s v), gen := kv.gen + 1 }, .ok (s.latest + 1))
+      ({ secrets := kv.secrets.insert n (putNewMutate s v), gen := kv.gen + 1,
+         disk := kv.secrets.insert n (putNewMutate s v) }, .ok (s.latest + 1))
     ∧ s.latest + 1 ∉ s.versions ∧ (putNewMutate s v).active = s.active
     ∧ ∀ k, k ∈ s.versions → k < s.latest + 1 := by
   refine ⟨by simp [put, hs, hd, save, putNewMutate], ?_, rfl, ?_⟩
@@ -430,5 +434,50 @@ theorem put_gen (g : Bool) (kv : KV) (n : String) (v : Bytes) (ok : Bool) (hinv 
     · split
       · left; rfl
       · right; simp [save]
+
+/-! ### the file always holds exactly the served state (C03): every mutation saves the whole
+map before it returns success, and a failed save changes neither -/
+
+def Synced (kv : KV) : Prop := kv.disk = kv.secrets
+
+theorem put_synced (g : Bool) (kv : KV) (n : String) (v : Bytes) (ok : Bool) (hinv : Inv kv) (h : Synced kv) :
+    Synced (put g kv n v ok).1 := by
+  cases ok
+  · rw [put_savefail g kv n v hinv]; exact h
+  · unfold put; split
+    · simp [save, Synced]
+    · split
+      · exact h
+      · simp [save, Synced]
+
+theorem setActive_synced (kv : KV) (n : String) (v : Nat) (ok : Bool) (h : Synced kv) :
+    Synced (setActive kv n v ok).1 := by
+  cases ok
+  · rw [setActive_savefail]; exact h
+  · unfold setActive
+    split; · exact h
+    split; · exact h
+    split; · exact h
+    split; · exact h
+    simp [save, Synced]
+
+theorem deleteVersion_synced (kv : KV) (n : String) (v : Nat) (ok : Bool) (h : Synced kv) :
+    Synced (deleteVersion kv n v ok).1 := by
+  cases ok
+  · rw [deleteVersion_savefail]; exact h
+  · unfold deleteVersion
+    split; · exact h
+    split; · exact h
+    split; · exact h
+    split; · exact h
+    simp [save, Synced]
+
+theorem deleteSecret_synced (kv : KV) (n : String) (ok : Bool) (h : Synced kv) :
+    Synced (deleteSecret kv n ok).1 := by
+  cases ok
+  · rw [deleteSecret_savefail]; exact h
+  · unfold deleteSecret
+    split; · exact h
+    simp [save, Synced]
 
 end Setec.KV
